@@ -4,7 +4,6 @@ mod capacity_test;
 
 use super::*;
 use crate::utils::combine_error_results;
-use std::iter::once;
 use vrp_core::models::common::{Load, MultiDimLoad};
 use vrp_core::prelude::GenericResult;
 
@@ -18,80 +17,60 @@ pub fn check_vehicle_load(context: &CheckerContext) -> Result<(), Vec<GenericErr
 fn check_vehicle_load_assignment(context: &CheckerContext) -> GenericResult<()> {
     context.solution.tours.iter().try_for_each::<_, GenericResult<_>>(|tour| {
         let capacity = MultiDimLoad::new(context.get_vehicle(&tour.vehicle_id)?.capacity.clone());
-        let intervals = get_intervals(context, tour);
 
-        intervals
-            .iter()
-            .try_fold::<_, _, GenericResult<_>>(MultiDimLoad::default(), |acc, interval| {
-                let (start_delivery, end_pickup) = get_activities_from_interval(context, tour, interval.as_slice())
-                    .try_fold::<_, _, GenericResult<_>>(
-                    (acc, MultiDimLoad::default()),
-                    |acc, (activity, activity_type)| {
-                        let activity_type = activity_type?;
-                        let demand = get_demand(context, &activity, &activity_type)?;
-                        Ok(match demand {
-                            (DemandType::StaticDelivery, demand) => (acc.0 + demand, acc.1),
-                            (DemandType::StaticPickup, demand) => (acc.0, acc.1 + demand),
-                            (DemandType::StaticPickupDelivery, demand) => (acc.0 + demand, acc.1 + demand),
-                            _ => acc,
-                        })
+        // NOTE: stop's load is reported after all its activities are done
+        let (_, expected_loads) = get_intervals(tour).iter().try_fold::<_, _, GenericResult<_>>(
+            (MultiDimLoad::default(), vec![MultiDimLoad::default(); tour.stops.len()]),
+            |(acc, mut expected_loads), interval| {
+                let (start_delivery, end_pickup) = get_static_demand(context, tour, interval.as_slice())?;
+
+                let end_capacity = interval.iter().try_fold::<_, _, GenericResult<_>>(
+                    acc + start_delivery,
+                    |acc, (idx, stop, activity)| {
+                        let activity_type = context.get_activity_type(tour, stop, activity)?;
+                        let (demand_type, demand) = if activity.activity_type == "arrival" {
+                            (DemandType::StaticDelivery, end_pickup)
+                        } else {
+                            get_demand(context, activity, &activity_type)?
+                        };
+
+                        let acc = match demand_type {
+                            DemandType::StaticDelivery | DemandType::DynamicDelivery => acc - demand,
+                            DemandType::StaticPickup | DemandType::DynamicPickup => acc + demand,
+                            DemandType::None | DemandType::StaticPickupDelivery => acc,
+                        };
+                        expected_loads[*idx] = acc;
+
+                        Ok(acc)
                     },
                 )?;
 
-                let end_capacity =
-                    interval.iter().try_fold::<_, _, GenericResult<_>>(start_delivery, |acc, (idx, (from, to))| {
-                        let from_load = MultiDimLoad::new(from.load().clone());
-                        let to_load = MultiDimLoad::new(to.load().clone());
+                Ok((end_capacity - end_pickup, expected_loads))
+            },
+        )?;
 
-                        if !capacity.can_fit(&from_load) || !capacity.can_fit(&to_load) {
-                            return Err(format!("load exceeds capacity in tour '{}'", tour.vehicle_id).into());
-                        }
+        let get_load = |idx: usize| tour.stops.get(idx).map(|stop| MultiDimLoad::new(stop.load().clone()));
 
-                        let get_load_change = |stop: &Stop| {
-                            stop.activities().iter().try_fold::<_, _, GenericResult<_>>(
-                                MultiDimLoad::default(),
-                                |acc, activity| {
-                                    let activity_type = context.get_activity_type(tour, stop, activity)?;
-                                    let (demand_type, demand) =
-                                        if activity.activity_type == "arrival" || activity.activity_type == "reload" {
-                                            (DemandType::StaticDelivery, end_pickup)
-                                        } else {
-                                            get_demand(context, activity, &activity_type)?
-                                        };
+        tour.stops.iter().enumerate().try_for_each(|(idx, stop)| {
+            let load = MultiDimLoad::new(stop.load().clone());
 
-                                    Ok(match demand_type {
-                                        DemandType::StaticDelivery | DemandType::DynamicDelivery => acc - demand,
-                                        DemandType::StaticPickup | DemandType::DynamicPickup => acc + demand,
-                                        DemandType::None | DemandType::StaticPickupDelivery => acc,
-                                    })
-                                },
-                            )
-                        };
+            if !capacity.can_fit(&load) {
+                return Err(format!("load exceeds capacity in tour '{}'", tour.vehicle_id).into());
+            }
 
-                        // NOTE: stop's load is reported after all its activities are done, so jobs served
-                        // at the departure stop have already changed the load the tour starts with
-                        let acc = if *idx == 0 { acc + get_load_change(from)? } else { acc };
-                        let change = get_load_change(to)?;
+            if load == expected_loads[idx] {
+                return Ok(());
+            }
 
-                        let is_from_valid = from_load == acc;
-                        let is_to_valid = to_load == from_load + change;
+            // NOTE: the next stop is reported too when it does not follow the load of a stop which starts load interval
+            let is_next_valid = !(idx == 0 || is_reload_stop(context, stop))
+                || get_load(idx + 1)
+                    .is_none_or(|next_load| next_load == load + expected_loads[idx + 1] - expected_loads[idx]);
+            let message =
+                if is_next_valid { format!("at stop {idx}") } else { format!("at stops {}, {}", idx, idx + 1) };
 
-                        if is_from_valid && is_to_valid {
-                            Ok(to_load)
-                        } else {
-                            let message = match (is_from_valid, is_to_valid) {
-                                (true, false) => format!("at stop {}", idx + 1),
-                                (false, true) => format!("at stop {idx}"),
-                                _ => format!("at stops {}, {}", idx, idx + 1),
-                            };
-
-                            Err(format!("load mismatch {} in tour '{}'", message, tour.vehicle_id).into())
-                        }
-                    })?;
-
-                Ok(end_capacity - end_pickup)
-            })
-            .map(|_| ())
+            Err(format!("load mismatch {} in tour '{}'", message, tour.vehicle_id).into())
+        })
     })
 }
 
@@ -112,33 +91,20 @@ fn check_resource_consumption(context: &CheckerContext) -> GenericResult<()> {
         .tours
         .iter()
         .flat_map(|tour| {
-            get_intervals(context, tour).into_iter().filter_map(|interval| {
-                let resource_id = interval.first().and_then(|(_, (start, _))| {
-                    start
-                        .activities()
-                        .iter()
-                        .filter_map(|activity| context.get_activity_type(tour, start, activity).ok())
-                        .filter_map(|activity| match activity {
-                            ActivityType::Reload(reload) => Some(reload),
-                            _ => None,
-                        })
-                        .filter_map(|reload| reload.resource_id.as_ref().cloned())
-                        .next()
-                });
+            get_intervals(tour).into_iter().filter_map(move |interval| {
+                // NOTE: reload is the first activity of the load interval it starts
+                let resource_id = interval
+                    .first()
+                    .and_then(|(_, stop, activity)| context.get_activity_type(tour, stop, activity).ok())
+                    .and_then(|activity_type| match activity_type {
+                        ActivityType::Reload(reload) => reload.resource_id,
+                        _ => None,
+                    })?;
 
-                if let Some(resource_id) = resource_id {
-                    let consumption = get_activities_from_interval(context, tour, interval.as_slice())
-                        .filter_map(|(activity, activity_type)| Some(activity).zip(activity_type.ok()))
-                        .filter_map(|(activity, activity_type)| get_demand(context, &activity, &activity_type).ok())
-                        .filter_map(|(demand_type, demand_value)| match demand_type {
-                            DemandType::StaticDelivery => Some(demand_value),
-                            _ => None,
-                        })
-                        .fold(MultiDimLoad::default(), |acc, demand| acc + demand);
-                    Some((resource_id, consumption))
-                } else {
-                    None
-                }
+                // NOTE: everything what is delivered till the next reload is loaded here
+                let (consumption, _) = get_static_demand(context, tour, interval.as_slice()).ok()?;
+
+                Some((resource_id, consumption))
             })
         })
         .fold(HashMap::default(), |mut acc, (resource_id, consumption)| {
@@ -203,55 +169,40 @@ fn get_demand(
     Ok((demand_type, demand))
 }
 
-fn get_intervals<'a>(context: &CheckerContext, tour: &'a Tour) -> Vec<Vec<(usize, (&'a Stop, &'a Stop))>> {
-    let legs = tour
-        .stops
-        .windows(2)
+/// Represents an activity with the index of its stop.
+type StopActivity<'a> = (usize, &'a Stop, &'a Activity);
+
+/// Splits tour's activities into load intervals: a reload activity, wherever it is in a stop, starts a new one.
+fn get_intervals(tour: &Tour) -> Vec<Vec<StopActivity<'_>>> {
+    tour.stops
+        .iter()
         .enumerate()
-        .map(|(idx, leg)| {
-            (
-                idx,
-                match leg {
-                    [from, to] => (from, to),
-                    _ => panic!("unexpected leg configuration"),
-                },
-            )
-        })
-        .collect::<Vec<_>>();
-
-    legs.iter()
-        .fold(Vec::<(usize, usize)>::default(), |mut acc, (idx, (_, to))| {
-            let last_idx = legs.len() - 1;
-            if is_reload_stop(context, to) || *idx == last_idx {
-                // NOTE: end index is exclusive as an interval has no legs when reload is the next stop
-                let start_idx = acc.last().map_or(0_usize, |item| item.1 + 1);
-                let end_idx = if *idx == last_idx { last_idx + 1 } else { *idx };
-
-                acc.push((start_idx, end_idx));
+        .flat_map(|(idx, stop)| stop.activities().iter().map(move |activity| (idx, stop, activity)))
+        .fold(vec![Vec::default()], |mut acc, stop_activity| {
+            if stop_activity.2.activity_type == "reload" {
+                acc.push(Vec::default());
             }
+            acc.last_mut().unwrap().push(stop_activity);
 
             acc
         })
-        .into_iter()
-        .map(|(start_idx, end_idx)| legs.iter().cloned().skip(start_idx).take(end_idx - start_idx).collect::<Vec<_>>())
-        .collect()
 }
 
-fn get_activities_from_interval<'a>(
-    context: &'a CheckerContext,
-    tour: &'a Tour,
-    interval: &'a [(usize, (&Stop, &Stop))],
-) -> impl Iterator<Item = (Activity, GenericResult<ActivityType>)> + 'a {
-    interval
-        .iter()
-        .flat_map(|(_, (from, to))| once(from).chain(once(to)))
-        .enumerate()
-        .filter_map(|(idx, stop)| if idx == 0 || idx % 2 == 1 { Some(stop) } else { None })
-        .flat_map(move |stop| {
-            stop.activities()
-                .iter()
-                .map(move |activity| (activity.clone(), context.get_activity_type(tour, stop, activity)))
+/// Gets static demand of the load interval: what is loaded at its start and what is unloaded at its end.
+fn get_static_demand(
+    context: &CheckerContext,
+    tour: &Tour,
+    interval: &[StopActivity],
+) -> GenericResult<(MultiDimLoad, MultiDimLoad)> {
+    interval.iter().try_fold((MultiDimLoad::default(), MultiDimLoad::default()), |acc, (_, stop, activity)| {
+        let activity_type = context.get_activity_type(tour, stop, activity)?;
+        Ok(match get_demand(context, activity, &activity_type)? {
+            (DemandType::StaticDelivery, demand) => (acc.0 + demand, acc.1),
+            (DemandType::StaticPickup, demand) => (acc.0, acc.1 + demand),
+            (DemandType::StaticPickupDelivery, demand) => (acc.0 + demand, acc.1 + demand),
+            _ => acc,
         })
+    })
 }
 
 fn is_reload_stop(context: &CheckerContext, stop: &Stop) -> bool {
